@@ -146,7 +146,7 @@ func (s *Spec) Productions() []*grammar.Production {
 // for the grammar and precedences in the spec.
 func (s *Spec) SLRParsingTable() (*lr.ParsingTable, error) {
 	T, err := simple.BuildParsingTable(s.Grammar, s.Precedences)
-	if err != nil {
+	if err = s.resolveConflicts(err); err != nil {
 		return nil, fmt.Errorf("error on building SLR(1) parsing table:\n%s", err)
 	}
 
@@ -157,7 +157,7 @@ func (s *Spec) SLRParsingTable() (*lr.ParsingTable, error) {
 // for the grammar and precedences in the spec.
 func (s *Spec) LALRParsingTable() (*lr.ParsingTable, error) {
 	T, err := lookahead.BuildParsingTable(s.Grammar, s.Precedences)
-	if err != nil {
+	if err = s.resolveConflicts(err); err != nil {
 		return nil, fmt.Errorf("error on building LALR(1) parsing table:\n%s", err)
 	}
 
@@ -168,9 +168,67 @@ func (s *Spec) LALRParsingTable() (*lr.ParsingTable, error) {
 // for the grammar and precedences in the spec.
 func (s *Spec) GLRParsingTable() (*lr.ParsingTable, error) {
 	T, err := canonical.BuildParsingTable(s.Grammar, s.Precedences)
-	if err != nil {
+	if err = s.resolveConflicts(err); err != nil {
 		return nil, fmt.Errorf("error on building GLR(1) parsing table:\n%s", err)
 	}
 
 	return T, nil
+}
+
+// resolveConflicts takes the error of a parsing table construction and settles the conflicts it reports
+// independently of the order in which the actions of a table entry happen to be visited:
+// an action replaces the other actions of its entry if it takes precedence over every one of them.
+// It returns the conflicts that no precedence level settles.
+func (s *Spec) resolveConflicts(err error) error {
+	conflicts, ok := err.(lr.AggregatedConflictError)
+	if !ok {
+		return err
+	}
+
+	var unresolved lr.AggregatedConflictError
+	for _, conflict := range conflicts {
+		if action, ok := s.dominantAction(conflict); ok {
+			conflict.Actions.RemoveAll()
+			conflict.Actions.Add(action)
+		} else {
+			unresolved = append(unresolved, conflict)
+		}
+	}
+
+	return unresolved.ErrorOrNil()
+}
+
+// dominantAction returns the action of a conflicting table entry that takes precedence over all other actions of the entry.
+func (s *Spec) dominantAction(conflict *lr.ConflictError) (*lr.Action, bool) {
+	pairs := make([]*lr.ActionHandlePair, 0, conflict.Actions.Size())
+	for action := range conflict.Actions.All() {
+		pair := &lr.ActionHandlePair{Action: action}
+		switch action.Type {
+		case lr.SHIFT:
+			pair.Handle = lr.PrecedenceHandleForTerminal(conflict.Terminal)
+		case lr.REDUCE:
+			pair.Handle = lr.PrecedenceHandleForProduction(action.Production)
+		default:
+			return nil, false
+		}
+		pairs = append(pairs, pair)
+	}
+
+	for _, p := range pairs {
+		dominant := true
+		for _, q := range pairs {
+			if p == q {
+				continue
+			}
+			if cmp, err := s.Precedences.Compare(p, q); err != nil || cmp <= 0 {
+				dominant = false
+				break
+			}
+		}
+		if dominant {
+			return p.Action, true
+		}
+	}
+
+	return nil, false
 }
